@@ -1,5 +1,25 @@
-//! C13 — not implemented yet.
+//! C13 — the 27 integer vector types are the exact lane-wise lift of Rust's integer primitives,
+//! in the release profile (wrapping arithmetic) and in the `chk` profile (overflow-checks on).
+use vcore::*;
+
+mod simd {
+    pub const VARIANT: &str = "simd";
+    use ::glam_simd as glam;
+    include!("suite.rs");
+}
+
 fn main() {
-    eprintln!("c13: not implemented");
-    std::process::exit(2);
+    let args = Args::parse();
+    silence_panics();
+    // The driver names the whole-build configuration; the oracle follows the *measured* profile.
+    // A binary whose measured profile contradicts the configuration it is supposed to cover is an
+    // inconclusive run (exit 2), never a verdict.
+    let (h, g) = (simd::ovf(), simd::glam_ovf());
+    if h != g || (args.build == "chk" && !h) || (args.build == "stable" && h && !args.out.is_empty()) {
+        eprintln!("c13: profile mismatch: build={} harness overflow-checks={} glam overflow-checks={}", args.build, h, g);
+        std::process::exit(2);
+    }
+    let subs = simd::subs(&args);
+    let code = main_with("C13", "see MANIFEST / evidence rule", &args, subs);
+    std::process::exit(code);
 }
